@@ -124,6 +124,7 @@ def tasks(tier, seed):
             T.append(('L1', NP, NMAX))
         T.append(('witness',))
         T += [('L1het', 2, 4), ('L1het', 3, 4)]
+        T += [('L1', 2, 6, 0.125), ('L1', 4, 6, 0.125)]  # explicit dt_initial = dt / 8 in the level parameters
         from harness import c09
 
         T += [t for t in c09.tasks(tier, seed) if t[0] == 'hist' and (len(t) > 7 and t[7] or t[1] <= 2)]
@@ -133,6 +134,7 @@ def tasks(tier, seed):
 
         T += [t for t in c09.tasks(tier, seed) if t[0] in ('hist', 'adrun')]
         T += [('L1het', 2, 6), ('L1het', 3, 6), ('L1het', 4, 6)]
+        T += [('L1', 2, 8, 0.125), ('L1', 3, 8, 0.125), ('L1', 4, 8, 0.5)]
         for NP, NMAX in [(1, 12), (2, 12), (3, 12), (4, 12), (5, 12), (6, 12), (7, 12), (8, 12)]:
             T.append(('L1', NP, NMAX))
         T.append(('witness',))
@@ -154,7 +156,7 @@ def run_task(rep, task):
 
         return c09.adrun_case(rep, *task[1:], pid=PID, clauses=('tiling', 'chaining'))
     if task[0] == 'L1':
-        l1_case(rep, task[1], task[2])
+        l1_case(rep, task[1], task[2], *(task[3:4]))
     elif task[0] == 'L1het':
         l1het_case(rep, task[1], task[2])
     elif task[0] == 'witness':
@@ -163,10 +165,15 @@ def run_task(rep, task):
         l2_case(rep, task[1], task[2], task[3])
 
 
+OPTS = {'dt_initial_factor': None}
+
+
 def make_ctl(NP, dt, dtype=np.dtype('O'), maxiter=8):
     d = dict(problem_class=TokProb, problem_params={'dtype': dtype}, sweeper_class=DirectSolver,
              sweeper_params={'num_nodes': 1, 'quad_type': 'RADAU-RIGHT'}, level_params={'dt': dt, 'restol': 1.0},
              step_params={'maxiter': maxiter})
+    if OPTS['dt_initial_factor'] is not None:  # an explicitly given initial step size below the step size (a declared level parameter)
+        d['level_params']['dt_initial'] = dt * OPTS['dt_initial_factor']
     return controller_nonMPI(NP, {'logger_level': 50, 'dump_setup': False, 'hook_class': [Rec]}, d)
 
 
@@ -259,8 +266,15 @@ def het_float(NP, vals):
     return bad
 
 
-def l1_case(rep, NP, NMAX):
-    name = f'L1/NP{NP}/N<={NMAX}'
+def l1_case(rep, NP, NMAX, dt_initial_factor=None):
+    OPTS['dt_initial_factor'] = dt_initial_factor
+    try:
+        return _l1_case(rep, NP, NMAX, f'L1/NP{NP}/N<={NMAX}' + ('/dt_initial-given' if dt_initial_factor is not None else ''))
+    finally:
+        OPTS['dt_initial_factor'] = None
+
+
+def _l1_case(rep, NP, NMAX, name):
     t0, dt, Tend, x = z3.Reals('t0 dt Tend x')
     # precondition: there is something to do (the controller rejects Tend within 10 eps of t0 with an error) and at most NMAX steps
     pre = [dt > 0, Tend - rv(EPS10) > t0, t0 + NMAX * dt >= Tend]
@@ -395,7 +409,7 @@ def confirm(rep, NP, vals, what, clause, name):
     bad, r = judge_float(NP, vals['t0'], vals['dt'], vals['Tend'])
     if bad:
         rep.violation(f'{PID}/{bad[0][0]}/real-arithmetic', f'{name}: {what}; float replay: {str(bad[0][1])[:200]}',
-                      {'NP': NP, **vals, 'violated': [(b[0], str(b[1])[:300]) for b in bad]})
+                      {'NP': NP, **vals, 'dt_initial_factor': OPTS['dt_initial_factor'], 'violated': [(b[0], str(b[1])[:300]) for b in bad]})
     else:
         rep.unreproduced(name + ':' + clause, {'what': what, 'values': vals})
 
@@ -617,6 +631,7 @@ def replay(path):
         from harness import c09
 
         return c09.replay(path)
+    OPTS['dt_initial_factor'] = d.get('dt_initial_factor')
     bad, r = judge_float(d['NP'], d['t0'], d['dt'], d['Tend'])
     print('float run:', r)
     print('violated:', bad)
